@@ -95,3 +95,75 @@ def noninit_tuple_family(out, prop, rng):
                             if not _same(x, y):
                                 out.violation(f'{prop}:noninit-tuple:layouts-disagree', f'{label}: sequence {list(seq)!r} gives {x!r}, the mapping spelling gives {y!r}', {'class': label})
     return n
+
+
+def construction_paths_family(out, prop):
+    """Defaults, factories and hooks on every construction path (constructor by position / by keyword, make_unchecked, mapping data,
+    sequence data).  Oracle: a field that was not supplied holds its declared default -- the very object for default=, a FRESH
+    product for default_factory -- whatever was built before; a hook that assigns a field of a non-frozen class runs once on
+    every path and its effect is visible; all paths give equal instances."""
+    import pane
+    from pane.errors import ConvertError
+    n = 0
+
+    def ident(v):
+        return v
+
+    class Bag(pane.PaneBase, in_format=('tuple', 'struct')):
+        name: str
+        items: t.List[int] = pane.field(default_factory=list)
+        index: t.Dict[str, int] = pane.field(default_factory=dict)
+        key: t.Any = ident                      # a function as a plain default: must come back as itself, not bound
+        limit: t.Optional[int] = None
+
+    class Box(pane.PaneBase, frozen=False, in_format=('tuple', 'struct')):
+        width: int
+        height: int
+        area: int = 0
+
+        def __post_init__(self):
+            self.area = self.width * self.height
+    paths = {
+        'constructor by position': lambda: Bag('b'), 'constructor by keyword': lambda: Bag(name='b'), 'make_unchecked': lambda: Bag.make_unchecked('b'),
+        'mapping data': lambda: pane.from_data({'name': 'b'}, Bag), 'sequence data': lambda: pane.from_data(['b'], Bag),
+        'nested sequence data': lambda: pane.from_data([['b']], t.List[Bag])[0], 'convert': lambda: pane.convert({'name': 'b'}, Bag),
+    }
+    with warnings.catch_warnings():
+        warnings.simplefilter('ignore')
+        made = {}
+        for label, mk in paths.items():
+            n += 1
+            try:
+                a = mk()
+                a.items.append(7)
+                a.index['seven'] = 7
+                b = mk()
+            except Exception as e:
+                out.violation(f'{prop}:construction-paths:{type(e).__name__}', f'{label}: {type(e).__name__}: {str(e)[:200]}', {'path': label})
+                continue
+            made[label] = b
+            if b.items != [] or b.index != {} or b.items is a.items or b.index is a.index:
+                out.violation(f'{prop}:default-factory-shared', f'{label}: a second instance has items={b.items!r}, index={b.index!r} after the first one\'s were modified '
+                              '(each instance must get a fresh product of the factory)', {'path': label})
+            if b.key is not ident or b.limit is not None:
+                out.violation(f'{prop}:default-not-stored', f'{label}: the unsupplied field key is a {type(b.key).__name__}, expected its default (the function ident itself); limit={b.limit!r}', {'path': label})
+            if set(b.__pane_set__) != {'name'}:
+                out.violation(f'{prop}:set-record', f'{label}: set-field record {sorted(b.__pane_set__)}, only name was supplied', {'path': label})
+        # the hook of a non-frozen class assigns a field
+        hook_paths = {
+            'constructor': lambda: Box(2, 3), 'constructor by keyword': lambda: Box(width=2, height=3), 'make_unchecked': lambda: Box.make_unchecked(2, 3),
+            'mapping data': lambda: pane.from_data({'width': 2, 'height': 3}, Box), 'sequence data': lambda: pane.from_data([2, 3], Box),
+            'nested mapping data': lambda: pane.from_data({'k': [{'width': 2, 'height': 3}]}, t.Dict[str, t.List[Box]])['k'][0],
+            'copy': lambda: __import__('copy').copy(Box(2, 3)), 'replace': lambda: Box(2, 1).__replace__(height=3),
+        }
+        for label, mk in hook_paths.items():
+            n += 1
+            try:
+                b = mk()
+            except Exception as e:
+                out.violation(f'{prop}:hook-assigning-field:{type(e).__name__}', f'{label}: building Box(width=2, height=3), whose __post_init__ assigns self.area, raised '
+                              f'{type(e).__name__}: {str(e)[:200]}', {'path': label})
+                continue
+            if (b.width, b.height, b.area) != (2, 3, 6):
+                out.violation(f'{prop}:hook-assigning-field', f'{label}: got {b!r}, expected Box(width=2, height=3, area=6)', {'path': label})
+    return n
